@@ -109,6 +109,8 @@ func c07Scenarios(thorough bool) []pwScenario {
 			pwScenario{Name: "F6-cancel-anywhere/" + n, Cfg: one, Threads: [][]pwOp{ops("addce:a")}, After: ops("add:b"), Budget: [4]int{d, 0, 0, 1}, Heal: 1, Steps: 4000},
 			// shrink by more addresses than one unassign call may carry
 			pwScenario{Name: "F7-shrink-beyond-batch/" + n, Cfg: big, Threads: [][]pwOp{ops("syncpool"), ops("add:a", "del:a")}, After: ops("syncpool"), Budget: [4]int{d, 0, f, 0}, Faults: true, Heal: 3, Steps: 4000},
+			// the only requester gives up while the interface is being created and the create itself comes back faulty
+			pwScenario{Name: "F9-requester-leaves-during-faulty-create/" + n, Cfg: empty, Threads: [][]pwOp{ops("addce:a")}, Budget: [4]int{d, 0, f, 1}, Faults: true, Heal: 2, Steps: 4000},
 			// one metadata view omits an idle address that is still assigned; the pool marks it invalid; the next trim must
 			// hand it back to the cloud, not just forget it
 			pwScenario{Name: "F8-partial-metadata-view;trim/" + n, Cfg: partial, Threads: [][]pwOp{ops("add:a", "hidenext:0", "lsync:0", "syncpool", "syncpool"), ops("add:b")}, After: ops("syncpool"), Budget: [4]int{d, 0, 0, 0}, Heal: 2, Steps: 4000},
